@@ -229,7 +229,7 @@ def _all_levels_classes(v, members):
     return out
 
 
-def _synth(adj, ka):
+def _synth(adj, ka, kb):
     """Three fresh dataclasses C0..C2 with an int payload `v`; edge i->j becomes field f{j} of C_i."""
     import sys
     import types
@@ -244,7 +244,7 @@ def _synth(adj, ka):
         ann = {"v": int}
         for j in range(3):
             if adj[i * 3 + j]:
-                ann[f"f{j}"] = c09.wrap_kind(ka, cls[j])
+                ann[f"f{j}"] = c09.wrap_kind(ka if (i + j) % 2 == 0 else kb, cls[j])
         c.__annotations__ = ann
         members[c] = list(ann.items())
     for c in cls:
@@ -252,18 +252,18 @@ def _synth(adj, ka):
     return cls, members, (mod,)
 
 
-def run_topology(adj, ka, container, rooti):
+def run_topology(adj, ka, container, rooti, kb=None):
     from typelib import codecs, graph, marshals, unmarshals
 
     from vlib import caches
 
-    cls, members, mods = _synth(adj, ka)
+    cls, members, mods = _synth(adj, ka, ka if kb is None else kb)
     try:
         caches.clear_all()
         root = cls[rooti]
         root_T = (root, list[root], t.Optional[root], dict[str, root])[container]
         label = ("bare", "list", "Optional", "dict")[container] + "/" + c09.KINDS[ka]
-        if not _constructible(root, members):
+        if not all(_constructible(c, members) for c in members):
             return None  # no finite value exists (a required direct class cycle)
         kf = ""
         try:
@@ -309,8 +309,11 @@ def make_topo(container, ka, rooti, timeout):
         with NoTracing():
             bits = ch.pick(512)
             adj = [bool((bits >> i) & 1) for i in range(9)]
+            # odd-parity edges take a second kind on a third of the graphs (direct class members included:
+            # a cycle may hold the next class directly as long as some edge lets a value bottom out)
+            kb = ka if bits % 3 else ch.pick(4)
             reached()
-            return run_topology(adj, ka, container, rooti)
+            return run_topology(adj, ka, container, rooti, kb)
 
     cn = ("bare", "list", "Optional", "dict")[container]
     return Cond(f"topo/{cn}/{c09.KINDS[ka]}/root{rooti}", [("c0", int), ("c1", int)], body, mode="E3", timeout=timeout)
